@@ -58,7 +58,8 @@ FlatVec(fld, m, q) == IF AllV THEN AllVec(fld, m, q) ELSE FamVec(fld, m, q)
 (* ------------------------------ universes ------------------------------- *)
 Exps == {1, 2, 3, PInf}
 TensorWs(n) == {WNone, WConst(QI(2)), WConst(Q(1, 2)),
-                WArr(IF n = 2 THEN <<QI(2), Q(1, 2)>> ELSE <<Q(1, 2), QI(3), QI(1)>>)}
+                WArr(IF n = 2 THEN <<QI(2), Q(1, 2)>> ELSE <<Q(1, 2), QI(3), QI(1)>>),
+                WArr(IF n = 2 THEN <<QI(3), QI(1)>> ELSE <<QI(1), QI(3), QI(2)>>)}     \* integer weights
 TensorU == { Tensor(fld, n, p, w) : fld \in Flds, n \in {3}, p \in Exps, w \in TensorWs(3) }
            \cup { Tensor(fld, n, p, w) : fld \in Flds, n \in {2}, p \in Exps, w \in TensorWs(2) }
 \* one-entry and zero-size spaces
@@ -104,6 +105,9 @@ PSpaceU ==
      \* components with DIFFERENT exponents and weightings
 \cup { PSpace(<<T2(fld, q1, WConst(QI(2))), T3(fld, q2, WArr(<<Q(1, 2), QI(3), QI(1)>>))>>, p, w) :
          fld \in Flds, p \in Exps, q1 \in {1, 2}, q2 \in {2, PInf}, w \in {WNone, WConst(QI(3))} }
+     \* components with INTEGER array weights (the only array-weighted ones an integer dtype can carry)
+\cup { PSpace(<<T2(fld, p, WArr(<<QI(2), QI(3)>>)), T2(fld, p, WArr(<<QI(2), QI(3)>>))>>, p, WNone) :
+         fld \in Flds, p \in Exps }
      \* discretised components (vector fields), nodes on the boundary, cell volume 1/2 and 1
 \cup { PSpace(<<D3(fld, p, f[1], f[2], h), D3(fld, p, f[1], f[2], h)>>, p, w) :
          fld \in Flds, p \in {2, 1}, f \in {<<0, 0>>, <<1, 0>>, <<1, 1>>}, h \in {Q(1, 2), QI(1)}, w \in {WNone, WConst(QI(3))} }
